@@ -30,6 +30,73 @@ if str(REPO / "src") not in sys.path:
 if str(VERIF / "harness") not in sys.path:
     sys.path.insert(0, str(VERIF / "harness"))
 
+# ---- hashlib as an oracle, recorded AT THE SOURCE ------------------------------------------------------------------
+# The hash functions are parameters of the model; the harness has to hand it the digests the implementation computed.
+# Recording by replacing the names a repository module imported (`kskm.misc.hsm.sha256 = …`) depends on HOW the code reaches
+# hashlib: a harmless refactoring that keeps the functions in a module-level table (captured at import) escapes it and the
+# model "cannot follow the run".  So the constructors of `hashlib` itself are wrapped here, BEFORE any repository module is
+# imported: whatever reference the repository keeps is the wrapper.  Without an active sink the wrapper only forwards.
+HASH_SINKS: list[Any] = []
+_HASH_NAMES = ("sha1", "sha256", "sha384", "sha512")
+
+
+class _RecordingHash:
+    """A hashlib object that reports (algorithm, message, digest) to the active sinks when a digest is taken."""
+
+    def __init__(self, name: str, inner: Any, data: bytes) -> None:
+        self._name, self._inner, self._data = name, inner, bytes(data)
+
+    def update(self, data: Any) -> None:
+        self._inner.update(data)
+        self._data += bytes(data)
+
+    def _report(self) -> None:
+        for sink in HASH_SINKS:
+            sink.entries.append({"alg": self._name, "message": self._data.hex(), "digest": self._inner.hexdigest()})
+
+    def digest(self) -> bytes:
+        self._report()
+        return self._inner.digest()
+
+    def hexdigest(self) -> str:
+        self._report()
+        return self._inner.hexdigest()
+
+    def copy(self) -> "_RecordingHash":
+        return _RecordingHash(self._name, self._inner.copy(), self._data)
+
+    def __getattr__(self, item: str) -> Any:  # name, digest_size, block_size
+        return getattr(self._inner, item)
+
+
+def _wrap_hashlib() -> None:
+    if getattr(hashlib, "_kskm_verif_wrapped", False):
+        return
+    for n in _HASH_NAMES:
+        orig = getattr(hashlib, n)
+
+        def ctor(data: Any = b"", *a: Any, _orig: Any = orig, _n: str = n, **kw: Any) -> Any:
+            if not HASH_SINKS:
+                return _orig(data, *a, **kw)
+            return _RecordingHash(_n, _orig(data, *a, **kw), data)
+
+        ctor.__name__ = n
+        setattr(hashlib, n, ctor)
+    orig_new = hashlib.new
+
+    def new(name: str, data: Any = b"", *a: Any, **kw: Any) -> Any:
+        if not HASH_SINKS or name.lower() not in _HASH_NAMES:
+            return orig_new(name, data, *a, **kw)
+        return _RecordingHash(name.lower(), orig_new(name, data, *a, **kw), data)
+
+    hashlib.new = new  # type: ignore[assignment]
+    hashlib._kskm_verif_wrapped = True  # type: ignore[attr-defined]
+
+
+if "kskm" in sys.modules:  # pragma: no cover - a repository module was imported before the harness: the wrapper would be bypassed
+    raise RuntimeError("harness/lib.py must be imported before any kskm module (hashlib is wrapped at import)")
+_wrap_hashlib()
+
 # The repo logs a lot; verdicts are what we compare.  The logging LEVEL is part of the environment, though: the tools run at
 # INFO by default and at DEBUG with --debug, and `if logger.isEnabledFor(DEBUG)` branches must not change a verdict.  So the
 # checks run once with logging disabled and — `./check` does this as a second pass — once more with every logger at DEBUG
